@@ -66,6 +66,7 @@ type CorrScenario struct {
 	Barrier  bool   `json:"barrier"`
 	Mixed    bool   `json:"mixed"`
 	Secure   bool   `json:"secure"`
+	Observe  bool   `json:"observe"`
 }
 
 // PStr is the argument type used with the plain codec (a named string type).
@@ -143,12 +144,57 @@ func (c *CS) Call(arg *PStr) (*PStr, *erpc.Status) {
 	return &r, nil
 }
 
+// OwnedString reads a byte-slice value that the framework has handed over to the application for good: the argument of a
+// handler that is still running, the InputBodyBytes of an unknown-message handler, the result of a call that has
+// completed.  Nothing in the framework may write to that memory any more (the race check counts a report whose other
+// access is the repository's: lib/eng_race.py, "owned read").
+//go:noinline
+func OwnedString(p *[]byte) string { return string(*p) }
+
+// obsPlug is an observing plugin (metrics / tracing style): its write hooks READ everything the WriteCtx they are given
+// documents as readable and change nothing.  PostWriteCall takes a little while (the reply may arrive meanwhile).
+type obsPlug struct{ sum int64 }
+
+func (o *obsPlug) Name() string { return "verif-observer" }
+
+func (o *obsPlug) look(c erpc.WriteCtx, rounds int) {
+	n := 0
+	for i := 0; i < rounds; i++ {
+		if c.StatusOK() {
+			n++
+		}
+		if st := c.Status(); st != nil {
+			n += int(st.Code()) + len(st.Msg()) + len(st.Cause().Error())
+		}
+		out := c.Output()
+		n += int(out.Seq()) + int(out.Mtype()) + len(out.ServiceMethod()) + int(out.BodyCodec()) + int(out.Size()) + out.XferPipe().Len()
+		out.Meta().VisitAll(func(k, v []byte) { n += len(k) + len(v) })
+		if st := out.Status(); st != nil {
+			n += int(st.Code())
+		}
+		if sw := c.Swap(); sw != nil {
+			n += sw.Len()
+		}
+		n += len(c.Session().ID()) + len(c.IP()) + c.Session().Swap().Len()
+		if i+1 < rounds {
+			runtime.Gosched()
+		}
+	}
+	atomic.AddInt64(&o.sum, int64(n))
+}
+func (o *obsPlug) PreWriteCall(c erpc.WriteCtx) *erpc.Status   { o.look(c, 1); return nil }
+func (o *obsPlug) PostWriteCall(c erpc.WriteCtx) *erpc.Status  { o.look(c, 12); return nil }
+func (o *obsPlug) PreWritePush(c erpc.WriteCtx) *erpc.Status   { o.look(c, 1); return nil }
+func (o *obsPlug) PostWritePush(c erpc.WriteCtx) *erpc.Status  { o.look(c, 3); return nil }
+func (o *obsPlug) PreWriteReply(c erpc.WriteCtx) *erpc.Status  { o.look(c, 1); return nil }
+func (o *obsPlug) PostWriteReply(c erpc.WriteCtx) *erpc.Status { o.look(c, 3); return nil }
+
 // CB / PBB: raw byte bodies "tag|pad" (argument and result are byte slices, no codec is involved): /cb/call, /pbb/push
 type CB struct{ erpc.CallCtx }
 
 func (c *CB) Call(arg *[]byte) ([]byte, *erpc.Status) {
 	tag, pad := curCorr.handle("call", Name(c.Session()), c.Seq(), func() string { return metaView(c) },
-		func() (string, string) { return splitTP(string(*arg)) })
+		func() (string, string) { return splitTP(OwnedString(arg)) })
 	replyMeta(c, tag)
 	return []byte(F(tag) + "|" + pad), nil
 }
@@ -157,7 +203,24 @@ type PBB struct{ erpc.PushCtx }
 
 func (c *PBB) Push(arg *[]byte) *erpc.Status {
 	curCorr.handle("push", Name(c.Session()), c.Seq(), func() string { return metaView(c) },
-		func() (string, string) { return splitTP(string(*arg)) })
+		func() (string, string) { return splitTP(OwnedString(arg)) })
+	return nil
+}
+
+// unknownCB / unknownPBB: the same two handlers as the peer's unknown-message handlers (routes /cbu/call, /pbbu/push are
+// not registered): the body is what InputBodyBytes returns
+func unknownCB(c erpc.UnknownCallCtx) (interface{}, *erpc.Status) {
+	body := c.InputBodyBytes()
+	tag, pad := curCorr.handle("call", Name(c.Session()), c.Seq(), func() string { return metaView(c) },
+		func() (string, string) { return splitTP(OwnedString(&body)) })
+	replyMeta(c, tag)
+	return []byte(F(tag) + "|" + pad), nil
+}
+
+func unknownPBB(c erpc.UnknownPushCtx) *erpc.Status {
+	body := c.InputBodyBytes()
+	curCorr.handle("push", Name(c.Session()), c.Seq(), func() string { return metaView(c) },
+		func() (string, string) { return splitTP(OwnedString(&body)) })
 	return nil
 }
 
@@ -371,13 +434,26 @@ func runCorr(rec *Rec, sc *CorrScenario, n int) {
 		// an accept hook that leaves an entry in the swap of every session, and the shipped secure plugin
 		plugs = []erpc.Plugin{swapSeeder{}, secure.NewPlugin(9999, "0123456789abcdef")}
 	}
+	if sc.Observe {
+		plugs = []erpc.Plugin{&obsPlug{}}
+	}
 	srv := erpc.NewPeer(erpc.PeerConfig{DefaultBodyCodec: "json"}, plugs...)
 	if sc.Secure {
 		plugs = []erpc.Plugin{swapSeeder{}, secure.NewPlugin(9999, "0123456789abcdef")}
 	}
+	if sc.Observe {
+		plugs = []erpc.Plugin{&obsPlug{}}
+	}
 	cli := erpc.NewPeer(erpc.PeerConfig{DefaultBodyCodec: "json"}, plugs...)
 	corrRoutes(srv)
 	corrRoutes(cli)
+	if sc.Codec == "b" {
+		// raw byte bodies: every other message goes to a route that is not registered, i.e. to the unknown-message handlers
+		for _, p := range []erpc.Peer{srv, cli} {
+			p.SetUnknownCall(unknownCB)
+			p.SetUnknownPush(unknownPBB)
+		}
+	}
 	defer func() {
 		done := make(chan struct{})
 		go func() { cli.Close(); srv.Close(); close(done) }()
@@ -461,7 +537,7 @@ func runCorr(rec *Rec, sc *CorrScenario, n int) {
 			return &a, r, func() (string, string) { return splitTP(string(*r)) }
 		case "b":
 			r := new([]byte)
-			return []byte(tag + "|" + pad), r, func() (string, string) { return splitTP(string(*r)) }
+			return []byte(tag + "|" + pad), r, func() (string, string) { return splitTP(OwnedString(r)) }
 		case "p":
 			r := new(pb.Payload)
 			return &pb.Payload{ServiceMethod: tag, Body: []byte(pad)}, r, func() (string, string) { return r.ServiceMethod, string(r.Body) }
@@ -532,10 +608,14 @@ func runCorr(rec *Rec, sc *CorrScenario, n int) {
 							exp, route = "nf", "/ct/nothere"
 						}
 					}
+					proute := pushRoute
+					if sc.Codec == "b" && (g+i/4)%2 == 1 {
+						route, proute = "/cbu/call", "/pbbu/push" // (not registered: the unknown-message handlers)
+					}
 					switch kind {
 					case 2:
 						rec.Emit("CallStart", "c", tag, "kind", "push", "padsum", Sum(pad), "padlen", len(pad))
-						st := sess.Push(pushRoute, arg, settings...)
+						st := sess.Push(proute, arg, settings...)
 						rec.Emit("PushRet", "c", tag, "code", st.Code())
 					default:
 						rec.Emit("CallStart", "c", tag, "kind", "call", "padsum", Sum(pad), "padlen", len(pad), "exp", exp)
